@@ -1,0 +1,7 @@
+//go:build verif
+
+package meta
+
+// VerifResyncBatchSize is the number of objects the metabase rebuild puts in
+// one PutBatch (verification harness only).
+const VerifResyncBatchSize = resyncBatchSize
